@@ -38,8 +38,9 @@ VARIABLES x, y,              \* what the caller wrote: the first input; the seco
           lastms, lastlim,   \* the arguments of the previous call
           n, nd,             \* calls made; derivations since the last call
           tag, mech,         \* mechanism: the memo the working object carries; the contents it produces
+          pend,              \* simulation only: the step the caller has decided on (NoPend in the breadth-first configurations)
           hist
-vars == <<x, y, cur, root, own, lastms, lastlim, n, nd, tag, mech, hist>>
+vars == <<x, y, cur, root, own, lastms, lastlim, n, nd, tag, mech, pend, hist>>
 
 CodeX(j, i) == 100 * j + i
 CodeY(j, i) == 100 * j + 50 + i
@@ -67,10 +68,11 @@ DOf(kd, k, i, j) == [kind |-> kd, k |-> k, i |-> i, j |-> j]
 Ders == {DOf("extend", k, 0, 0) : k \in ExtendsP} \cup {DOf("calendar", k, 0, 0) : k \in CalendarsP}
         \cup {DOf(kd, 0, 0, 0) : kd \in {"lag", "head", "tail", "copy", "values", "arith"}}
         \cup {DOf("poke", 0, i, j) : i \in 1..(NRows(x) + MaxDerP - 1), j \in (IF NCols(x) = 1 THEN {0} ELSE PokeColsP)}
+NoPend == [a |-> "", src |-> "", y |-> NoY, ms |-> <<>>, lim |-> 0, d |-> NoD]
 SameRows(F) == \A f, g \in F : f.rows = g.rows
 
 Init == /\ x \in FramesP /\ y = NoY /\ cur = {} /\ root = "x" /\ own = FALSE /\ lastms = <<>> /\ lastlim = 0
-        /\ n = 0 /\ nd = 0 /\ tag = <<>> /\ mech = {} /\ hist = <<>>
+        /\ n = 0 /\ nd = 0 /\ tag = <<>> /\ mech = {} /\ pend = NoPend /\ hist = <<>>
 
 \* what a later call may ask for: the same method list (any limit), another method list
 Asks == IF n = 0 THEN ListsP \X LimsP
@@ -86,28 +88,34 @@ MechCall(src, yy, ms, l) ==
     IN  /\ mech' = IF hit THEN G ELSE IF G = Contents(src, yy) THEN cur' ELSE UNION {Fillna(g, ms, l) : g \in G}
         /\ tag'  = IF l = 0 /\ ms # <<>> THEN ms ELSE tg
 
-Call(src, yy, ms, l) ==
-    /\ n < MaxCallsP /\ n' = n + 1 /\ nd' = 0
+CallOK(src, yy, ms, l) ==
+    /\ n < MaxCallsP
     /\ (n = 0) => src = "x"
     /\ (nd > 0) => src = "cur"                 \* a derivation is made in order to be passed on
     /\ IF src = "y" THEN yy \in YFrames /\ (y # NoY => yy = y) ELSE yy = y
     /\ <<ms, l>> \in Asks
+CallDo(src, yy, ms, l) ==
+    /\ n' = n + 1 /\ nd' = 0
     /\ cur' = UNION {Fillna(g, ms, l) : g \in Contents(src, yy)}              \* PLaw
     /\ root' = IF src = "cur" THEN root ELSE src
     /\ own' = IF ms = <<>> THEN (src = "cur" /\ own) ELSE TRUE               \* the empty list returns its input object
     /\ lastms' = ms /\ lastlim' = l /\ y' = yy
     /\ MechCall(src, yy, ms, l)
     /\ UNCHANGED x
+Call(src, yy, ms, l) == CallOK(src, yy, ms, l) /\ CallDo(src, yy, ms, l) /\ UNCHANGED pend
 
-Der(d) ==
-    /\ n >= 1 /\ n < MaxCallsP /\ nd < MaxDerP /\ nd' = nd + 1
+DerOK(d) ==
+    /\ n >= 1 /\ n < MaxCallsP /\ nd < MaxDerP
     /\ SameRows(cur) /\ DeriveOK(d, cur)
     /\ (d.kind = "poke") => own
+DerDo(d) ==
+    /\ nd' = nd + 1
     /\ cur'  = {Derive(d, g, NRows(x)) : g \in cur}
     /\ mech' = {Derive(d, g, NRows(x)) : g \in mech}
     /\ tag'  = IF d.kind = "values" THEN <<>> ELSE tag
     /\ own'  = TRUE
     /\ UNCHANGED <<x, y, root, lastms, lastlim, n>>
+Der(d) == DerOK(d) /\ DerDo(d) /\ UNCHANGED pend
 
 Srcs == {"x", "y", "cur"}
 Step == \/ \E src \in Srcs, ms \in ListsP, l \in LimsP \cup OtherLimsP :
@@ -122,6 +130,23 @@ NextGen ==
                  Call(src, yy, ms, l) /\ hist' = Append(hist, Entry("call", src, ms, l, NoD))
        \/ \E d \in Ders : Der(d) /\ hist' = Append(hist, Entry("der", "cur", <<>>, 0, d))
     /\ (Emit /\ n' = MaxCallsP) => PrintT(ToJson([x |-> x, y |-> y', hist |-> hist']))
+
+\* simulation (longer sessions): the caller first DECIDES on an enabled step (cheap: no outcome is computed for the steps
+\* not chosen), then takes it - so that a random walk does not pay for every successor of every state
+NextSim ==
+    IF pend = NoPend
+    THEN /\ \/ \E src \in Srcs, ms \in ListsP, l \in LimsP \cup OtherLimsP :
+                  \E yy \in (IF src = "y" THEN YFrames ELSE {y}) :
+                      CallOK(src, yy, ms, l) /\ pend' = [a |-> "call", src |-> src, y |-> yy, ms |-> ms, lim |-> l, d |-> NoD]
+            \/ \E d \in Ders : DerOK(d) /\ pend' = [a |-> "der", src |-> "cur", y |-> y, ms |-> <<>>, lim |-> 0, d |-> d]
+         /\ UNCHANGED <<x, y, cur, root, own, lastms, lastlim, n, nd, tag, mech, hist>>
+    ELSE /\ pend' = NoPend
+         /\ IF pend.a = "call"
+            THEN /\ CallOK(pend.src, pend.y, pend.ms, pend.lim) /\ CallDo(pend.src, pend.y, pend.ms, pend.lim)
+                 /\ hist' = Append(hist, Entry("call", pend.src, pend.ms, pend.lim, NoD))
+            ELSE /\ DerOK(pend.d) /\ DerDo(pend.d)
+                 /\ hist' = Append(hist, Entry("der", "cur", <<>>, 0, pend.d))
+         /\ (Emit /\ n' = MaxCallsP) => PrintT(ToJson([x |-> x, y |-> y', hist |-> hist']))
 
 CellsOf(f) == {f.cols[j][i] : j \in 1..NCols(f), i \in 1..NRows(f)}
 PShape   == \A g \in cur : WellFormed(g) /\ NCols(g) = NCols(x)
